@@ -2,7 +2,8 @@
     Statements only; proofs are in Txcache/Selection_proofs.v (envelope: ANY choice oracle [pick],
     any stopping point [fuel]) and Txcache/Pool_proofs.v (reachable pools satisfy the hypothesis). *)
 From Coq Require Import List NArith ZArith Lia.
-From Verif Require Import Base.BStr Txcache.TxTypes Txcache.Selection Txcache.Judge Txcache.Selection_proofs.
+From Verif Require Import Base.BStr Txcache.TxTypes Txcache.Selection Txcache.Judge Txcache.Selection_proofs
+  Txcache.Pool Txcache.Pool_proofs Txcache.Pool_props.
 Import ListNotations.
 Open Scope N_scope.
 
@@ -36,6 +37,18 @@ Theorem C01_select :
   forall a, run_from (sess_nonce sess a) (map nonce (of_sender a (fst (select sess bs gasRequested maxNum)))).
 Proof. intros sess bs g m Hok a. rewrite select_is_loop. apply env_C01_run. exact Hok. Qed.
 
+(** composition with the pool invariant (C05/C04): for EVERY history of AddTx / RemoveTxByHash / Clear / Select
+    (any limits, eviction on or off, hash determines content) the bunches handed to the selection satisfy the
+    hypothesis, so the guarantee holds for every reachable pool *)
+Theorem C01_reachable :
+  forall cfg ops sess gasRequested maxNum, hist_ok ops ->
+  forall a, run_from (sess_nonce sess a)
+              (map nonce (of_sender a (fst (select_txs (run_pool cfg ops) sess gasRequested maxNum)))).
+Proof.
+  intros cfg ops sess g m H a. unfold select_txs. rewrite select_is_loop. apply env_C01_run.
+  apply inv_bunches_ok. apply run_pool_inv. exact H.
+Qed.
+
 (** the executable twin evaluated by the correspondence check on the implementation's results *)
 Theorem C01_checker_sound :
   forall sess result, c01_holdsb sess result = true ->
@@ -68,5 +81,6 @@ Proof. split; [apply bunches_okb_sound; vm_compute; reflexivity|vm_compute; refl
 Print Assumptions C01_run.
 Print Assumptions C01_strictly_increasing.
 Print Assumptions C01_select.
+Print Assumptions C01_reachable.
 Print Assumptions C01_checker_sound.
 Print Assumptions C01_checker_accepts_model.
